@@ -84,7 +84,7 @@ func authFunc(mode string, party *string, log *simfw.Log, calls *int, sawFull *[
 // validatorOptions: Auth "none" configures the validator without any
 // AuthenticationFunc (a secured operation can then not be validated).
 func validatorOptions(s Spec, auth openapi3filter.AuthenticationFunc) openapi3filter.Options {
-	o := openapi3filter.Options{MultiError: s.MultiError, AuthenticationFunc: auth}
+	o := openapi3filter.Options{MultiError: s.MultiError, AuthenticationFunc: auth, ExcludeResponseBody: s.ExclRespBody, IncludeResponseStatus: s.InclRespStatus}
 	if s.Auth == "none" {
 		o.AuthenticationFunc = nil
 	}
@@ -294,14 +294,47 @@ func (Sim) Run(raw json.RawMessage, prop string, keep bool) (res simfw.Result) {
 		if s.Kind == "vh_serve" {
 			vh.Handler = handler
 		}
+		// the order in which the handler is put together: Load then Middleware (the usual one), Middleware
+		// before Load, or a second Load of another document after the chain has been built. Requests are
+		// served afterwards in every case, so the document in force is the last one loaded.
+		wrap := func() {
+			if s.Kind == "vh_serve" {
+				mwh = vh
+			} else {
+				mwh = vh.Middleware(handler)
+			}
+		}
+		switch s.VHOrder {
+		case "mw_first":
+			wrap()
+			res.Probe("vh-middleware-before-load")
+		case "reload":
+			other := s.Doc
+			other.Secured, other.ReqHeader, other.ObjParam = !other.Secured, !other.ReqHeader, !other.ObjParam
+			otherYAML, otherPath := other.YAML(), "/simfs/"+s.Marker+"/earlier.yaml"
+			prev := zzsimrt.ReadFileFunc
+			zzsimrt.ReadFileFunc = func(name string) ([]byte, error, bool) {
+				if name == otherPath {
+					log.Add("fs", "read", name, "")
+					return []byte(otherYAML), nil, true
+				}
+				return prev(name)
+			}
+			vh.File = otherPath
+			if err := vh.Load(); err != nil {
+				res.Inconcl = "vh load (earlier document): " + err.Error()
+				return
+			}
+			wrap()
+			vh.File = path
+			res.Probe("vh-reload")
+		}
 		if err := vh.Load(); err != nil {
 			res.Inconcl = "vh load: " + err.Error()
 			return
 		}
-		if s.Kind == "vh_serve" {
-			mwh = vh
-		} else {
-			mwh = vh.Middleware(handler)
+		if mwh == nil {
+			wrap()
 		}
 	}
 
@@ -340,7 +373,9 @@ func (Sim) Run(raw json.RawMessage, prop string, keep bool) (res simfw.Result) {
 			}
 			return fmt.Sprintf("%s/%s:%s", Prop, o, mode+"/"+shape)
 		}
-		if _, aborted := panicked.(simenv.HandlerAbort); aborted {
+		if panicked != nil && rec.Aborted {
+			// (by what the script did, not by the panic value: a middleware may recover the handler's panic,
+			// clean up and panic again with a value of its own)
 			// the scripted handler crashed: the panic is the handler's, not the middleware's. Nothing of the
 			// response is judged, except that strict mode had not let anything through; the following requests
 			// of the history show whether the crash left anything behind in the middleware.
@@ -367,7 +402,7 @@ func (Sim) Run(raw json.RawMessage, prop string, keep bool) (res simfw.Result) {
 		// ---- neutral verdict --------------------------------------------
 		nreq := neutralRequest(q)
 		nAuthFails := strings.HasSuffix(s.Auth, "fail") || s.Auth == "none" // without a callback no scheme can be accepted
-		nopts := &openapi3filter.Options{MultiError: s.MultiError && s.Kind == "validator", AuthenticationFunc: func(context.Context, *openapi3filter.AuthenticationInput) error {
+		nopts := &openapi3filter.Options{MultiError: s.MultiError && s.Kind == "validator", ExcludeResponseBody: s.ExclRespBody && s.Kind == "validator", IncludeResponseStatus: s.InclRespStatus && s.Kind == "validator", AuthenticationFunc: func(context.Context, *openapi3filter.AuthenticationInput) error {
 			if nAuthFails {
 				return errors.New("credential rejected")
 			}
@@ -541,7 +576,8 @@ func (Sim) Run(raw json.RawMessage, prop string, keep bool) (res simfw.Result) {
 			Body:                   io.NopCloser(strings.NewReader(R.Body)),
 			Options:                nopts,
 		})
-		if q.RespIntent == "valid" && rverr != nil || q.RespIntent == "invalid" && rverr == nil {
+		// (with the response options on, "valid by construction" no longer says what the validator is asked to check)
+		if !s.ExclRespBody && !s.InclRespStatus && (q.RespIntent == "valid" && rverr != nil || q.RespIntent == "invalid" && rverr == nil) {
 			res.Violate(Prop, "intent", fmt.Sprintf("%s/resp-intent:%s", Prop, q.RespIntent),
 				fmt.Sprintf("req #%d: response built as %s (status %d, body %q) but ValidateResponse says %v", i, q.RespIntent, R.Status, R.Body, rverr))
 		}
